@@ -109,9 +109,9 @@ func (rndb *RangeNamespaceDataBlock) Populate(ctx context.Context, eds eds.Acces
 
 func (rndb *RangeNamespaceDataBlock) UnmarshalFn(root *share.AxisRoots) UnmarshalFn {
 	return func(cntrData, idData []byte) error {
-		if !rndb.Container.IsEmpty() {
-			return nil
-		}
+		// NOTE: data is verified even if the Block is already populated. The hasher accepts whatever
+		// this function accepts, and the accepted bytes are handed to every other requester of the
+		// same CID, which unmarshals them on its own and trusts them to be valid.
 		rndid, err := shwap.RangeNamespaceDataIDV0FromBinary(idData)
 		if err != nil {
 			return fmt.Errorf("unmarhaling RangeNamespaceDataIDV0: %w", err)
